@@ -334,6 +334,7 @@ def oracle(case, out):
     nodrain = set()
     held = set()                # peers whose connection task(s) are currently not being polled (`hold`)
     held_since_opened = set()   # a hold was placed on the peer's task since its stream was reported opened
+    hold_step = {}              # peer -> op index of the latest effective `hold`
     unhold_step = {}            # peer -> op index of the `unhold` that ended the latest hold
     prev_events = -1            # op index of the previous `events` op
     late = set()                # the protocol reported opened / open failure for the peer while an old task was held:
@@ -403,6 +404,7 @@ def oracle(case, out):
             if m and int(m.group(1)) > 0:
                 held.add(peer)
                 held_since_opened.add(peer)
+                hold_step[peer] = i
         if t[0] == "unhold":
             if peer in held:
                 unhold_step[peer] = i
@@ -472,9 +474,9 @@ def oracle(case, out):
                 last_validate_step.pop(p, None)
                 accept_steps[p] = []
                 qualifying.pop(p, None)
-                held_since_opened.discard(p)
-                if p in held:
-                    held_since_opened.add(p)
+                if p not in held and hold_step.get(p, -1) <= prev_events:
+                    # this stream was reported after the hold had been placed: its task is not a held one
+                    held_since_opened.discard(p)
             elif kind == "closed":
                 if not view_open.get(p):
                     v("closed-without-opened", f"stream to peer {p} reported closed but it was not open", i,
@@ -485,6 +487,8 @@ def oracle(case, out):
                     # negotiation round has started (that round's bookkeeping stays; nothing is known to be quiet)
                     late_closed_now.add(p)
                     quiet[p] = False
+                    if p not in held:
+                        held_since_opened.discard(p)
                 else:
                     last_validate_step.pop(p, None)
                     accept_steps[p] = []
